@@ -13,7 +13,7 @@ fn valid(h: &Hist) -> bool { h.all_intervals().iter().all(|x| x.0 < x.1) }
 fn exec(t: &[String]) -> Option<String> {
     let h = dec(t)?;
     let l = h.build();
-    let runs: Vec<Interval<u64, u64>> = l.depth().collect();
+    let runs: Vec<Interval<u64, u64>> = super::common::drain_mode(l.depth(), super::common::next_mode());
     let mut w = W::new();
     w.n(runs.len());
     for r in &runs { w.n(r.start).n(r.stop).n(r.val); }
